@@ -1,8 +1,89 @@
 import CnlDriver.CS
-/-! `C06` driver table (stub). -/
+import CnlModel.Layered
+import CnlSpec.Overflow
+/-! `C06` / `C07` tables: tagged arithmetic and conversion on built-in operands. -/
 namespace Cnl.Drv
-open Cnl
+open Cnl Cnl.Overflow
 
-def checkC06 (_toks : List String) (_res : String) : Option Verdict := none
+def parsePath : String → Option Path
+  | "builtin" => some .builtin | "portable" => some .portable | _ => none
+
+/-- what the property demands of a checked operation whose exact result is `e` in type `T` -/
+def c06Want (tag : OvTag) (T : IntTy) (e : Int) : String := showRes showTV (Spec.checkedWant tag T e)
+
+def sgnS (t : IntTy) : String := if t.signed then "s" else "u"
+
+/-- known-defect classes (call site: operator x signedness mix x path), see known_findings.json -/
+def c06Class (path : Path) (kind : String) (op : String) (L R : IntTy) (l r : Int) : String :=
+  let mixed := L.signed != R.signed
+  if kind == "bin" || kind == "wbin" then
+    if op == "shl" then
+      (if l == 0 && r ≥ (promote L).bits then "C06.shl_zero_by_wide_count"
+       else if l == -1 && r == ((promote L).digits : Int) then "C06.shl_minus_one_to_lowest" else "")
+    else if op == "shr" then (if r ≥ (promote L).bits then "C06.shr_count_ge_width" else "")
+    else if op == "div" then (if mixed then "C06.div_mixed_signedness" else "")
+    else if mixed && path == .portable then "C06.portable_mixed_signedness"
+    else ""
+  else ""
+
+structure C06Case where
+  model : Res TV
+  want : Option String     -- none: the property does not constrain this input
+  cls : String
+  branch : String
+
+def c06Eval (toks : List String) : Option C06Case :=
+  match toks with
+  | [kind, path, tag, op, lt, rt, l, r] =>
+    if kind != "bin" && kind != "wbin" then none else do
+    let path ← parsePath path; let tag ← parseOvTag tag; let bop ← parseBinOp op
+    let L ← parseIntTy lt; let R ← parseIntTy rt; let l ← l.toInt?; let r ← r.toInt?
+    let T := binResultTy bop L R
+    let exact : Option Int :=
+      if bop == .shl && l == 0 && r ≥ 0 then some 0
+      else if bop == .shr then (if r < 0 then none else some (l / 2^r.toNat))
+      else Spec.exactBin bop l r
+    let m := checkedBin path tag bop (L, l) (R, r)
+    let ovf := match exact with
+      | some e => if e > T.max then "/pos" else if e < T.lowest then "/neg" else ""
+      | none => "/na"
+    some { model := m, want := exact.map (c06Want tag T), cls := c06Class path kind op L R l r,
+           branch := s!"{kind}/{op}/{tag.toString}{ovf}" }
+  | ["neg", _path, tag, lt, l] => do
+    let tag ← parseOvTag tag; let L ← parseIntTy lt; let l ← l.toInt?
+    let T := promote L
+    some { model := checkedNeg tag (L, l), want := some (c06Want tag T (-l)), cls := "",
+           branch := s!"neg/{tag.toString}" }
+  | ["cvt", _path, tag, st, dt, v] => do
+    let tag ← parseOvTag tag; let S ← parseIntTy st; let D ← parseIntTy dt; let v ← v.toInt?
+    some { model := checkedConvert tag D (S, v), want := some (c06Want tag D v), cls := "",
+           branch := s!"cvt/{tag.toString}" ++ (if D.inRange v then "" else "/ovf") }
+  | _ => none
+
+def isWrapped (toks : List String) : Bool := toks.head? == some "wbin"
+
+/-- the wrapped variant prints `ov(T,tag):v` instead of `T:v` -/
+def c06Show (toks : List String) (tag : String) (s : String) : String :=
+  if isWrapped toks then
+    match s.splitOn ":" with
+    | [t, v] => s!"ov({t},{tag}):{v}"
+    | _ => s
+  else s
+
+def checkC06 (toks : List String) (res : String) : Option Verdict := do
+  let c ← c06Eval toks
+  let tag := toks.getD 2 ""
+  let m := c06Show toks tag (showRes showTV c.model)
+  let spec := c.want.map (fun w => c06Show toks tag w == res)
+  some { model := m, spec := spec, cls := c.cls, branch := c.branch, nontrivial := c.want.isSome }
+
+/-- C07: the evaluation is defined (no UB, no internal `unreachable`, no crash) -/
+def checkC07 (toks : List String) (res : String) : Option Verdict := do
+  let c ← c06Eval toks
+  let tag := toks.getD 2 ""
+  let m := c06Show toks tag (showRes showTV c.model)
+  let bad := res == "UB" || res == "UNREACHABLE" || res == "SEGV" || res == "ABORT" || res == "TIMEOUT"
+  let cls := if c.cls.isEmpty then "" else "C07." ++ (c.cls.drop 4).toString
+  some { model := m, spec := c.want.map (fun _ => !bad), cls := cls, branch := c.branch, nontrivial := c.want.isSome }
 
 end Cnl.Drv
